@@ -1,0 +1,47 @@
+//go:build verif
+
+// Contracts for contract-based deductive verification (govc, /verif).
+// This file contains comments only; it adds no code to the package.
+
+package cheque
+
+//@ # issuer recovered from a cheque's signature (EIP-712 recovery is assumed: ledger)
+//@ spec func chequeSigner(recipient common.Address, beneficiary common.Address, payout int, sig Bytes, chainID int) common.Address
+//@ spec func signatureOK(recipient common.Address, beneficiary common.Address, payout int, sig Bytes, chainID int) bool
+//@ # store key of the last cheque received from an issuer
+//@ spec func rckey(a common.Address) string
+//@ axiom rckey-injective: forall a common.Address, b common.Address :: rckey(a) == rckey(b) ==> a == b
+
+//@ # values of the function type RecoverChequeFunc: read-only, deterministic
+//@ func RecoverChequeFunc
+//@   trusted
+//@   requires cheque != nil
+//@   ensures (result1 == nil) <==> signatureOK(cheque.Cheque.Recipient, cheque.Cheque.Beneficiary, bigval(cheque.Cheque.CumulativePayout), seq(cheque.Signature), chainID)
+//@   ensures result1 == nil ==> result0 == chequeSigner(cheque.Cheque.Recipient, cheque.Cheque.Beneficiary, bigval(cheque.Cheque.CumulativePayout), seq(cheque.Signature), chainID)
+//@   assigns nothing
+
+//@ # fmt.Sprintf("%s_%x", prefix, addr): a function of the address (assumed injective)
+//@ func lastReceivedChequeKey
+//@   trusted
+//@   ensures result == rckey(chainAddress)
+//@   assigns nothing
+
+//@ # highest payout recorded for an issuer (0 when no cheque is stored)
+//@ spec func lastPayout(s *chequeStore, a common.Address) int = ite(stored(s.store, rckey(a)), bigval(storedval(s.store, rckey(a), SignedCheque).Cheque.CumulativePayout), 0)
+
+//@ func (*chequeStore).ReceiveCheque
+//@   property C30
+//@   requires s.store != nil && s.recoverChequeFunc != nil
+//@   requires cheque != nil && cheque.Cheque.CumulativePayout != nil
+//@   requires stored(s.store, rckey(cheque.Cheque.Beneficiary)) ==> storedval(s.store, rckey(cheque.Cheque.Beneficiary), SignedCheque).Cheque.CumulativePayout != nil
+//@   let ben = cheque.Cheque.Beneficiary
+//@   let pay = bigval(cheque.Cheque.CumulativePayout)
+//@   let last0 = lastPayout(s, cheque.Cheque.Beneficiary)
+//@   ensures addressed-to-us: result1 == nil ==> cheque.Cheque.Recipient == s.recipient
+//@   ensures signed-by-issuer: result1 == nil ==> signatureOK(cheque.Cheque.Recipient, ben, pay, seq(cheque.Signature), s.chainID) && chequeSigner(cheque.Cheque.Recipient, ben, pay, seq(cheque.Signature), s.chainID) == ben
+//@   ensures strictly-increasing: result1 == nil ==> pay > last0
+//@   ensures amount-is-difference: result1 == nil ==> result0 != nil && bigval(result0) == pay - last0
+//@   ensures recorded: result1 == nil ==> lastPayout(s, ben) == pay
+//@   ensures rejected-unchanged: result1 != nil ==> lastPayout(s, ben) == last0
+//@   ensures others-untouched: forall k2 string :: k2 != rckey(ben) ==> (stored(s.store, k2) <==> old(stored(s.store, k2))) && storedval(s.store, k2, SignedCheque) == old(storedval(s.store, k2, SignedCheque))
+//@   ensures cheque-not-modified: cheque.Cheque.Recipient == old(cheque.Cheque.Recipient) && cheque.Cheque.Beneficiary == old(cheque.Cheque.Beneficiary) && bigval(cheque.Cheque.CumulativePayout) == pay
